@@ -36,7 +36,7 @@ func getSwapInSenderStates() States {
 			Action: &SetBlindingKeyActionWrapper{next: &CreateSwapRequestAction{}},
 			Events: Events{
 				Event_ActionSucceeded: State_SwapInSender_SendRequest,
-				Event_ActionFailed:    State_SwapCanceled,
+				Event_ActionFailed:    State_SendCancel,
 			},
 			FailOnrecover: true,
 		},
@@ -44,8 +44,9 @@ func getSwapInSenderStates() States {
 			Action: &SendMessageAction{},
 			Events: Events{
 				Event_ActionSucceeded: State_SwapInSender_AwaitAgreement,
-				Event_ActionFailed:    State_SwapCanceled,
+				Event_ActionFailed:    State_SendCancel,
 			},
+			FailOnrecover: true,
 		},
 		State_SwapInSender_AwaitAgreement: {
 			Action: &NoOpAction{},
@@ -54,7 +55,9 @@ func getSwapInSenderStates() States {
 				Event_OnTimeout:                        State_SendCancel,
 				Event_SwapInSender_OnAgreementReceived: State_SwapInSender_BroadcastOpeningTx,
 				Event_OnInvalid_Message:                State_SendCancel,
+				Event_ActionFailed:                     State_SendCancel,
 			},
+			FailOnrecover: true,
 		},
 		State_SwapInSender_BroadcastOpeningTx: {
 			Action: &CheckPremiumAmount{next: &CreateAndBroadcastOpeningTransaction{}},
